@@ -185,3 +185,44 @@ def run(ctx, rep):
     rep.floor("CURSOR: of which not plain induction variables", n_nt, tab["cursor_nontrivial_floor"])
     rep.control("CURSOR", "c10_cursor_bad", ctl.get("c10_cursor_bad") is False, "stalling cursor must be reported")
     rep.control("CURSOR", "c10_cursor_ok (negative)", ctl.get("c10_cursor_ok") is True, "must be discharged")
+
+    # ---- SIBLING-COMPUTE -------------------------------------------------------------
+    rep.rules_text.append(
+        "SIBLING-COMPUTE: the two implementations of dequantisation (the kd-tree decoder's own loop and "
+        "AttributeQuantizationTransform::InverseTransformAttribute, which a client applies to skipped data) call the "
+        "same value-transforming functions (Dequantizer::*, min/max/clamp/abs/rounding) and use the same "
+        "floating-point operators: a clamp, rounding or offset added to one only makes 'skip + described transform' "
+        "differ from the ordinary decode")
+    for sc in tab["sibling_computations"]:
+        sigs = {}
+        for side in ("a", "b"):
+            fns = F.need(sc[side])
+            calls, fops = set(), set()
+            for fn in fns:
+                for blk, rk, tree, ev in fn.roots():
+                    if tree is None:
+                        continue
+                    for n in walk(tree):
+                        if n.get("k") == "call":
+                            b_ = strip_targs(n.get("fn") or "")
+                            if any(b_ == f or (f.endswith("::") and b_.startswith(f)) for f in sc["families"]):
+                                calls.add(b_)
+                        elif n.get("k") == "bin" and n.get("op") in ("+", "-", "*", "/") and \
+                                (n.get("t") in ("float", "double") or
+                                 any(isinstance(x, dict) and x.get("t") in ("float", "double") for x in (n.get("l"), n.get("r")))):
+                            fops.add(n["op"])
+            sigs[side] = (calls, fops)
+            sigs[side + "_calls_other"] = any(
+                n.get("k") == "call" and strip_targs(n.get("fn") or "") == sc["b" if side == "a" else "a"]
+                for fn in fns for blk, rk, tree, ev in fn.roots() if tree is not None for n in walk(tree))
+        # delegation: an implementation that calls the other one shares its computation
+        for side, other in (("a", "b"), ("b", "a")):
+            if sigs[side + "_calls_other"]:
+                sigs[side] = (sigs[side][0] | sigs[other][0], sigs[side][1] | sigs[other][1])
+        same = sigs["a"] == sigs["b"]
+        rep.add(Obligation("SIBLING-COMPUTE", sc["id"], "%s <-> %s" % (sc["a"].replace("draco::", ""), sc["b"].replace("draco::", "")),
+                           F.need(sc["b"])[0].loc, DISCHARGED if same else VIOLATION,
+                           detail="both call %s and use float ops %s" % (sorted(sigs["a"][0]), sorted(sigs["a"][1])) if same else
+                           "the two implementations differ: %s has calls %s / float ops %s, %s has calls %s / float ops %s" % (
+                               sc["a"].split("::")[-2], sorted(sigs["a"][0] - sigs["b"][0]), sorted(sigs["a"][1] - sigs["b"][1]),
+                               sc["b"].split("::")[-2], sorted(sigs["b"][0] - sigs["a"][0]), sorted(sigs["b"][1] - sigs["a"][1]))))
